@@ -227,20 +227,93 @@ func (c *Cluster) opByz(s *Step) {
 	}
 }
 
+// opPileReFF is a composite step (C13): two validators a and b exchange syncs
+// among themselves only, piling up events inside one round; a persistent
+// victim v learns the lower part of the pile (and hands its own event back),
+// then hears nothing while the pile grows and the others commit it; v then
+// fast-forwards again with the lower part of the pile still in its database.
+// The roots of the anchor frame then consist of pile events without any witness.
+func (c *Cluster) opPileReFF(s *Step) {
+	v, a, b := c.nodeAt(s.A), c.nodeAt(s.B), c.nodeAt(s.N)
+	if v == nil || a == nil || b == nil || v == a || v == b || a == b {
+		return
+	}
+	for _, n := range []*SimNode{v, a, b} {
+		if !n.running() || n.silent || n.state() != _state.Babbling || n.leaving || (n.task != nil && !n.task.done) {
+			return
+		}
+	}
+	if findPeer(a, b) == nil || findPeer(b, a) == nil || findPeer(v, a) == nil || findPeer(a, v) == nil {
+		return
+	}
+	k1, k2, m := int(s.D%100), int(s.D/100%100), int(s.D/10000)
+	c.nesting++
+	defer func() { c.nesting-- }()
+	c.stats.probe("pile-reff")
+	pair := func(k int) {
+		for i := 0; i < k; i++ {
+			x, y := a, b
+			if i%2 == 1 {
+				x, y = b, a
+			}
+			if !x.running() || !y.running() {
+				return
+			}
+			c.exec(&Step{Op: "tick", A: x.idx, B: y.idx})
+		}
+	}
+	pair(k1)
+	c.exec(&Step{Op: "tick", A: v.idx, B: a.idx, Kind: "pullonly"})
+	c.exec(&Step{Op: "tick", A: a.idx, B: v.idx, Kind: "pullonly"})
+	pair(k2)
+	wasSilent := v.silent
+	for i := 0; i < m+60; i++ {
+		v.silent = wasSilent
+		if i >= m/4 && c.canReFastForward(v, false) {
+			break
+		}
+		v.silent = true
+		live := []*SimNode{}
+		for _, n := range c.liveBabbling() {
+			if n != v {
+				live = append(live, n)
+			}
+		}
+		if len(live) < 2 {
+			break
+		}
+		x := live[c.inner.Intn(len(live))]
+		y := live[c.inner.Intn(len(live))]
+		if x == y {
+			continue
+		}
+		c.exec(&Step{Op: "tick", A: x.idx, B: y.idx})
+	}
+	v.silent = wasSilent
+	if v.running() {
+		if c.canReFastForward(v, false) {
+			c.stats.probe("pile-reff-reset-reached")
+		}
+		c.exec(&Step{Op: "reff", A: v.idx})
+	}
+}
+
 // opReFastForward: a running node that has fallen behind goes through the
 // real Node.fastForward() again (CatchingUp), as a node restarted with fast-sync
 // would. It is only done when the reset cannot make the node forget events of
 // its own (which would turn it into an equivocator through no fault of the code).
-func (c *Cluster) opReFastForward(s *Step) {
-	a := c.nodeAt(s.A)
+// canReFastForward: the node is babbling, some reachable peer offers an anchor
+// above its last block, and all of the node's own events are covered by that
+// anchor's frame.
+func (c *Cluster) canReFastForward(a *SimNode, probe bool) bool {
 	if a == nil || !a.running() || a.state() != _state.Babbling || a.leaving || a.isObserver || a.silent {
-		return
+		return false
 	}
 	if a.task != nil && !a.task.done {
-		return
+		return false
 	}
 	if c.parkedCount(a) > 0 {
-		return
+		return false
 	}
 	// the anchor it would get: highest block index among its reachable peers
 	best := -1
@@ -259,7 +332,7 @@ func (c *Cluster) opReFastForward(s *Step) {
 		}
 	}
 	if bestFrame == nil || best <= a.node.GetLastBlockIndex() {
-		return
+		return false
 	}
 	// all of a's own events must be covered by the frame
 	maxOwn := -1
@@ -276,7 +349,17 @@ func (c *Cluster) opReFastForward(s *Step) {
 		}
 	}
 	if maxOwn < a.core().Seq() {
-		c.stats.probe("reff-skipped-own-events-above-frame")
+		if probe {
+			c.stats.probe("reff-skipped-own-events-above-frame")
+		}
+		return false
+	}
+	return true
+}
+
+func (c *Cluster) opReFastForward(s *Step) {
+	a := c.nodeAt(s.A)
+	if !c.canReFastForward(a, true) {
 		return
 	}
 	// pending pool content would be lost for the ledger's purposes only if the node drops it; it does not
